@@ -119,10 +119,11 @@ func diffInternal(e, f []*etree.Element, equals func(*etree.Element, *etree.Elem
  * In golang it matches the sign of the numerator.
  * See https://en.wikipedia.org/wiki/Modulo_operation#Variants_of_the_definition
  * Since we always have a positive denominator here, we can emulate the
- * pyMod x%y as (x+y) % y
+ * pyMod x%y as ((x%y)+y) % y. (x+y)%y is not enough: the diagonal numbers
+ * reach -len(f), which is below -y when one list is much shorter than the other.
  */
 func pyMod(x, y int) int {
-	return (x + y) % y
+	return ((x % y) + y) % y
 }
 
 // equalLeafs checks if two etree leaf nodes are equal.
